@@ -77,10 +77,12 @@ PROPS.update({
         level_note=COMMON_NOTE + "Concurrency: draws are serialised by the multi write lock (lock-trace correspondence of C08).",
         ),
     "C03": dict(
-        streams=[dict(cmd="C03"), dict(cmd="C03b")],
-        technique="Lean 4 proof (a redraw with erase count n leaves every row above the last n in place) + differential correspondence + log-preservation oracle",
-        level_text="Rows above the managed region are proved untouched by any redraw; log preservation over MultiProgress histories is decided by the oracle on the real "
-                   "screen with the model run in lock-step (top and bottom alignment, rate-limited targets).",
+        streams=[dict(cmd="C03"), dict(cmd="C03b"), dict(cmd="ROWS")],
+        technique="Lean 4 invariant proof over every operation history of a row-level model of MultiState (validated against the real terminal) + per-redraw terminal refinement + log-preservation oracle",
+        level_text="For every history of MultiProgress/bar operations and every limiter state, the row-level model of MultiState's accounting is proved never to touch a row above the "
+                   "last z+n rows and to append every printed line there (C03_rows_above_never_touched, C03_log_preserved); one redraw with erase count n is proved on the terminal model "
+                   "to erase exactly the last n rows. The row model's screens equal the real terminal's at every painted frame (ROWS stream), the full model's at every flush "
+                   "(top and bottom alignment), and the log oracle judges the real screen.",
         level_note=COMMON_NOTE,
         ),
     "C04": dict(
